@@ -29,7 +29,7 @@ func runFamilies(e *env, prop, tag string, fam func(r *rng.R, id int) *famOut, b
 		return err
 	}
 	for _, be := range res.BuildErrors {
-		e.rep.Violation("generated-code-does-not-compile", map[string]any{"build_output": be, "broken": prop + ": code emitted for a successful generation does not compile"}, false)
+		e.rep.Violation("generated-code-does-not-compile", map[string]any{"build_output": be, "converters_named": buildErrSources(be, kbs), "broken": prop + ": code emitted for a successful generation does not compile"}, false)
 	}
 	for _, gm := range res.GenMismatch {
 		gm["broken"] = "correspondence " + prop + ": generation outcome, Gv.Gen.generate vs generator.Generate"
